@@ -5,7 +5,7 @@ HERE = os.path.dirname(os.path.abspath(__file__))
 BASELINE = "cd /repo && /venv/bin/python -m pytest -ra -q -p no:cacheprovider --timeout=900 --continue-on-collection-errors"
 
 CLAIMED = {
-    : dict(
+    'C20': dict(
         design='4.20',
         text='Deductive proof of the dimension algebra kernel: each dispatch handler of SI.Quantity (unary, add-like, mul-like, div-like, laplace, sqrt, setitem, pow-like, unary-op, '
              'binary-op, stack-like, curvature, field, interp, sample; real bodies incl. Quantity.__unpack) returns wrap(prescribed dimension, op(unwrapped values)) for arbitrary rational '
